@@ -412,7 +412,7 @@ def _cid_strategy(tier, ident):
 
     @st.composite
     def case(draw):
-        return {"ident": ident, "shape": draw(gen.grid_shape(dim, 5, 14 if dim == 2 else 9)), "dtype": draw(gen.precisions),
+        return {"ident": ident, "shape": draw(gen.grid_shape(dim, 5, 14 if dim == 2 else 9, long_axis=70 if dim == 2 else 40)), "dtype": draw(gen.precisions),
                 "threads": draw(st.sampled_from([False, 1, 2])), "keys": draw(st.lists(gen.block_keys, min_size=3, max_size=3)),
                 "layouts": draw(st.lists(st.sampled_from(LAYOUTS12), min_size=4, max_size=4)),
                 "pre_exp": draw(st.integers(-3, 2)), "reset": draw(st.booleans())}
